@@ -8,6 +8,7 @@ import (
 	"net/http"
 	"sort"
 	"strings"
+	"time"
 
 	"verifharness/mc"
 	"verifharness/world"
@@ -54,6 +55,7 @@ type c05Shape struct {
 	name string
 	h    [][2]string
 	line string // status-line override suffix (reason phrase); "" = standard
+	date string // "" = IMF-fixdate; "rfc850", "asctime": the obsolete formats a recipient must accept (RFC 9110 §5.6.7)
 }
 
 func c05Shapes() []c05Shape {
@@ -75,6 +77,8 @@ func c05Shapes() []c05Shape {
 		{name: "upgrade+proxy", h: H("Upgrade", "HOPMARK3", "Proxy-Authenticate", "Basic realm=HOPMARK4", "Proxy-Authentication-Info", "HOPMARK5", "Proxy-Connection", "HOPMARK6", "Te", "HOPMARK7")},
 		{name: "origin sends cache fields", h: H("Age", "3", "X-From-Cache", "1", "X-Httpcache-Status", "HIT")},
 		{name: "no Date", h: H("X-NoDate", "1")},
+		{name: "rfc850 Date", h: H("X-D", "850"), date: "rfc850"},
+		{name: "asctime Date", h: H("X-D", "asc"), date: "asctime"},
 		{name: "content-encoding kept", h: H("Content-Encoding", "gzip", "Content-Language", "en, fr", "Vary", "Accept-Encoding")},
 		{name: "etag+lm", h: H("ETag", `W/"weak \"x\""`, "Last-Modified", "Mon, 01 Jan 1990 00:00:00 GMT", "Link", `<http://a/b>; rel="x", <c>; rel=y`)},
 	}
@@ -161,7 +165,12 @@ func runC05(x *mc.X) {
 		x.Skip()
 	}
 	shape := shapes[si]
-	w, _, cleanup := c09World(backend)
+	// a logger enabled at debug level sees every stored and served response; none of that may show in what the caller gets
+	logger := ""
+	if backend == "rec" || backend == "memcache" {
+		logger = mc.Pick(x, "logger", []string{"", "text", "json"})
+	}
+	w, _, cleanup := c09WorldL(backend, logger)
 	defer cleanup()
 
 	var originHdr http.Header
@@ -184,7 +193,14 @@ func runC05(x *mc.X) {
 		if serve != "hit" {
 			ccv = "max-age=5, stale-while-revalidate=100000"
 		}
-		wire := c05Wire(status, shape, framing, body, httpDate(c.At), curTok, ccv)
+		date := httpDate(c.At)
+		switch shape.date {
+		case "rfc850":
+			date = c.At.UTC().Format("Monday, 02-Jan-06 15:04:05") + " GMT"
+		case "asctime":
+			date = c.At.UTC().Format(time.ANSIC)
+		}
+		wire := c05Wire(status, shape, framing, body, date, curTok, ccv)
 		resp, err := http.ReadResponse(bufio.NewReader(bytes.NewReader(wire)), c.Req)
 		if err != nil {
 			panic("harness: origin wire does not parse: " + err.Error())
